@@ -35,6 +35,30 @@ pub fn sweep_range(n: u64, f: impl Fn(&mut Stats, u64) + Sync) -> Stats {
         .reduce(Stats::default, Stats::merge)
 }
 
+/// the same sweep on dedicated OS threads instead of the rayon pool. For cases that keep per-thread state (a scripted
+/// sampler, a script) while the subject runs a nested parallel section: a rayon pool thread that waits in such a section
+/// picks up another case of the sweep on the same thread, which would clobber that state; a dedicated thread just blocks.
+pub fn sweep_range_dedicated(n: u64, f: impl Fn(&mut Stats, u64) + Sync) -> Stats {
+    let next = std::sync::atomic::AtomicU64::new(0);
+    let out = std::sync::Mutex::new(Vec::new());
+    std::thread::scope(|sc| {
+        for _ in 0..rayon::current_num_threads().max(1) {
+            sc.spawn(|| {
+                let mut st = Stats::default();
+                loop {
+                    let i = next.fetch_add(1, std::sync::atomic::Ordering::SeqCst);
+                    if i >= n {
+                        break;
+                    }
+                    f(&mut st, i);
+                }
+                out.lock().unwrap().push(st);
+            });
+        }
+    });
+    out.into_inner().unwrap().into_iter().fold(Stats::default(), Stats::merge)
+}
+
 fn main() {
     let args: Vec<String> = std::env::args().collect();
     if args.len() < 2 {
